@@ -448,13 +448,14 @@ def run_call_cli(ctx):
         if cfg.get("allele_filter") is not None:
             ctx.counters.inc("cli_allele_filter")
 
-        # reported genotypes
+        # reported genotypes: whatever rule a program uses to select the genotype it prints, the probability printed next to it must
+        # be that genotype's probability - under the enumeration (call-exact) or in the retained trace (call) - with the
+        # genotype read through the OUTPUT record's own allele sequences (so a shifted / mis-mapped allele label shows)
         for which, recs, parsed in (("call", call_recs, r_call), ("call-exact", exact_recs, r_exact)):
             by = {(r["locus"], r["sample"]): r for r in recs}
             for vr in parsed:
                 l = by_name[vr["id"]]
-                if vr["alts"] != l["seqs"][1:] or vr["ref"] != l["seqs"][0]:
-                    raise Violation("cli_labels", "mchap %s changed the alleles of record %s" % (which, vr["id"]), step=0)
+                out_seqs = [vr["ref"]] + vr["alts"]
                 for s in ds["samples"]:
                     rec = by.get((vr["id"], s))
                     gt = vr["samples"][s]["GT"]
@@ -462,44 +463,29 @@ def run_call_cli(ctx):
                         if "." not in gt:
                             raise Violation("cli_labels", "mchap %s reports genotype %s for a record with no usable allele" % (which, gt), step=0)
                         continue
-                    alleles = tuple(sorted(int(a) for a in gt.replace("|", "/").split("/")))
+                    try:
+                        called = [out_seqs[int(a)] for a in gt.replace("|", "/").split("/")]
+                        key = tuple(sorted(l["seqs"].index(q) for q in called))
+                    except (ValueError, IndexError):
+                        raise Violation("cli_labels", "mchap %s reports GT %s for %s / %s, which does not spell alleles of the input record" % (which, gt, vr["id"], s), step=0)
                     gpm = float(vr["samples"][s]["GPM"])
                     if which == "call-exact":
-                        srt = sorted(rec["want"].items(), key=lambda kv: -kv[1])
-                        if len(srt) > 1 and srt[0][1] - srt[1][1] < 1e-6:
-                            ctx.counters.inc("cli_mode_tie_skip")
-                            continue
-                        want_g, want_p = srt[0]
+                        want_p = rec["want"].get(key, 0.0)
                     else:
                         tr = rec["trace"][:, cfg["mcmc_burn"]:]
                         lookup = {r: i for i, r in enumerate(encode_sequences(l["seqs"]))}
                         amap = [lookup[tuple(int(a) for a in h)] for h in rec["haplotypes"]]
-                        cnt = {}
-                        tot = 0
+                        n = tot = 0
                         for chain in tr:
                             for g in chain:
-                                key = tuple(sorted(amap[int(a)] for a in g))
-                                cnt[key] = cnt.get(key, 0) + 1
                                 tot += 1
-                        # mchap call reports the most frequent genotype of the most frequent genotype support (set of alleles)
-                        sup = {}
-                        for g, c in cnt.items():
-                            sup[frozenset(g)] = sup.get(frozenset(g), 0) + c
-                        ssrt = sorted(sup.items(), key=lambda kv: -kv[1])
-                        if len(ssrt) > 1 and ssrt[0][1] == ssrt[1][1]:
-                            ctx.counters.inc("cli_mode_tie_skip")
-                            continue
-                        srt = sorted(((g, c) for g, c in cnt.items() if frozenset(g) == ssrt[0][0]), key=lambda kv: -kv[1])
-                        if len(srt) > 1 and srt[0][1] == srt[1][1]:
-                            ctx.counters.inc("cli_mode_tie_skip")
-                            continue
-                        want_g, want_p = srt[0][0], srt[0][1] / tot
-                    if alleles != want_g:
-                        raise Violation("cli_labels", "mchap %s reports GT %s for %s / %s; the genotype its own %s selects is %r (allele numbering of the input record)"
-                                        % (which, gt, vr["id"], s, "enumeration" if which == "call-exact" else "trace", want_g), step=0,
-                                        detail={"masked": l["masked"], "afp": l["afp"]})
-                    if abs(gpm - want_p) > 0.00051:
-                        raise Violation("cli_labels", "mchap %s reports GPM %r for %s / %s; expected %.6f" % (which, gpm, vr["id"], s, want_p), step=0)
+                                if tuple(sorted(amap[int(a)] for a in g)) == key:
+                                    n += 1
+                        want_p = n / tot
+                    if abs(gpm - want_p) > 0.0006:
+                        raise Violation("cli_labels", "mchap %s reports GT %s with GPM %r for %s / %s; the genotype these alleles spell has probability %.6f in its own %s"
+                                        % (which, gt, gpm, vr["id"], s, want_p, "enumeration" if which == "call-exact" else "retained trace"), step=0,
+                                        detail={"masked": l["masked"], "afp": l["afp"], "genotype": list(key)})
                     ctx.counters.inc("cli_genotypes_compared")
         ctx.key("cli-call", cfg["use_afp"], tuple((tuple(l["afp"]), l["masked"]) for l in loci), tuple(sorted(ploidy.values())), tuple(sorted(inb.values())))
 
